@@ -3,7 +3,7 @@ CONSTANTS
   Docs = {"d1","d2"}
   Txns = {1,2}
   MaxVal = 1
-  MaxOps = 7
+  MaxOps = 6
   Branchable = FALSE
 VIEW view
 INVARIANTS TypeOK FirstCommitterWins SnapshotStable EventsMatchCommits
